@@ -1089,8 +1089,12 @@ func (e *Engine) zeroValue(st *State, t types.Type) Value {
 		}
 		return sliceLit(vals)
 	case *types.Map:
-		m := e.emptyMap(st, u)
+		// the nil map: no identity, empty domain; the value arrays are never read (fixed names keep terms equal)
+		m := e.emptyMap(nil, u)
 		m.Ref = Int(0)
+		for _, leaf := range mapLeaves(u.Elem(), "") {
+			m.Val[leaf.name] = Var("map.zero:"+m.K.String()+":"+leaf.sort.String()+leaf.name, SArr(m.K, leaf.sort))
+		}
 		return m
 	case *types.Interface:
 		return &IfaceV{Tag: Int(0), Id: Int(0), Payloads: map[string]Value{}}
